@@ -128,7 +128,6 @@ DescsOf(fam, i1) ==
                             u == PreSeq[Rnd(s, 8, 3)]
                         IN IF Rnd(s, 9, 2) = 1 /\ ~IsTyPos(d, q) THEN WithPre(d, q, <<u>>) ELSE d :
                           s \in {x \in 1..NDeep : x % 8 = i1 - 1}}
-    [] fam = "neg" -> {}
 
 \* ---------------------------------------------------------------- groupings
 ApplySfx(sf, t) ==
@@ -180,26 +179,31 @@ Flat(d) ==
 \* ------------------------------------------------------------ negative cases
 \* token sequences outside the grammar: the parser must refuse them
 I(v) == Tok("Ident", v)
-NegSeq == <<
-  <<I("a"), Sym("+"), I("b"), Sym("="), I("c")>>,           \* = binds loosest: (a + b) = c has no assignable target
-  <<I("a"), Sym("*"), I("b"), Sym("="), I("c")>>,
-  <<I("a"), Sym("&&"), I("b"), Sym("="), I("c")>>,
-  <<I("a"), Sym("=="), I("b"), Sym("="), I("c")>>,
-  <<Sym("-"), I("a"), Sym("="), I("b")>>,                   \* prefix binds tighter than =
-  <<Sym("!"), I("a"), Sym("="), I("b")>>,
-  <<I("f"), Sym("("), Sym(")"), Sym("="), I("b")>>,
-  <<Tok("Num", "1"), Sym("="), I("b")>>,
-  <<I("a"), Sym("is"), Tok("Num", "3")>>,                   \* `is` takes a type name
-  <<I("a"), Sym("is"), Sym("("), I("number"), Sym(")")>>,
-  <<I("a"), Sym("+")>>,
-  <<I("a"), Sym("+"), Sym("*"), I("b")>>,
-  <<Sym("("), I("a"), Sym("+"), I("b")>>,
-  <<I("a"), Sym("+"), I("b"), Sym(")")>>,
-  <<I("a"), Sym("."), Tok("Num", "1")>>,
-  <<I("r"), Sym("["), I("b")>>,
-  <<I("f"), Sym("("), I("a"), Sym(",")>>,
-  <<I("a"), I("b")>>
+NegCase(toks, why) == [t |-> toks, why |-> why]
+NegCases == <<
+  \* = binds loosest: (a + b) = c has no assignable target
+  NegCase(<<I("a"), Sym("+"), I("b"), Sym("="), I("c")>>, "InvalidAssignmentTarget"),
+  NegCase(<<I("a"), Sym("*"), I("b"), Sym("="), I("c")>>, "InvalidAssignmentTarget"),
+  NegCase(<<I("a"), Sym("&&"), I("b"), Sym("="), I("c")>>, "InvalidAssignmentTarget"),
+  NegCase(<<I("a"), Sym("=="), I("b"), Sym("="), I("c")>>, "InvalidAssignmentTarget"),
+  \* prefix and call bind tighter than =
+  NegCase(<<Sym("-"), I("a"), Sym("="), I("b")>>, "InvalidAssignmentTarget"),
+  NegCase(<<Sym("!"), I("a"), Sym("="), I("b")>>, "InvalidAssignmentTarget"),
+  NegCase(<<I("f"), Sym("("), Sym(")"), Sym("="), I("b")>>, "InvalidAssignmentTarget"),
+  NegCase(<<Tok("Num", "1"), Sym("="), I("b")>>, "InvalidAssignmentTarget"),
+  \* `is` takes a type name, not an expression
+  NegCase(<<I("a"), Sym("is"), Tok("Num", "3")>>, "expected a type name"),
+  NegCase(<<I("a"), Sym("is"), Sym("("), I("number"), Sym(")")>>, "expected a type name"),
+  NegCase(<<I("a"), Sym("+")>>, "unexpected token EOF"),
+  NegCase(<<I("a"), Sym("+"), Sym("*"), I("b")>>, "unexpected token *"),
+  NegCase(<<Sym("("), I("a"), Sym("+"), I("b")>>, "expected )"),
+  NegCase(<<I("a"), Sym("+"), I("b"), Sym(")")>>, "expected EOF"),
+  NegCase(<<I("a"), Sym("."), Tok("Num", "1")>>, "expected Ident"),
+  NegCase(<<I("r"), Sym("["), I("b")>>, "expected ]"),
+  NegCase(<<I("f"), Sym("("), I("a"), Sym(",")>>, "expected )"),
+  NegCase(<<I("a"), I("b")>>, "expected EOF")
 >>
+NegSeq == [j \in 1..Len(NegCases) |-> NegCases[j].t]
 
 \* ------------------------------------------------------- evaluation (3.1-3.7)
 \* A reference evaluation on a small exact universe, used to choose operands
@@ -301,14 +305,21 @@ NPool == Len(Pool)
 \* An operand assignment gives every position a pool index; it is named by its
 \* number in counting order (base NPool, position 1 least significant).
 \* One and two positions, and operator pairs (family bin2): every assignment.
-\* Otherwise a table: Table3 / Table4 were computed once by a greedy cover over
-\* all 8^3 / 8^4 assignments (on all operator pairs / on samples of the
-\* operator triples) so that every pair of groupings that some assignment of
-\* the pool tells apart is told apart by one of the table.  A fifth position
-\* takes the value of the first.
+\* Otherwise a table (this is DESIGN.md's DiscriminatingOperands with the
+\* search space cut down once, offline): Table3 / Table4 were computed by a
+\* greedy cover over all 8^3 / 8^4 assignments, with this module's Ev, so that
+\* every pair of groupings that SOME assignment of the pool tells apart is told
+\* apart by one of the table - for all operator pairs with and without a prefix
+\* operator (Table3: complete), for 921 of the 9261 operator triples (Table4;
+\* on a held-out third of that sample a table built from the rest covered 98%).
+\* A fifth position takes the value of the first.
 Pow(b, e) == IF e = 0 THEN 1 ELSE IF e = 1 THEN b ELSE IF e = 2 THEN b * b ELSE b * b * b
-Table3 == <<289, 145, 326, 257, 263, 384, 318, 66, 9, 293, 352, 385>>
-Table4 == <<2332, 3271, 33, 2103, 3361, 577, 2054, 3457>>
+Table3 == <<289, 145, 326, 257, 263, 384, 318, 66, 9, 293, 352, 385, 167, 374, 367, 422, 46, 353, 429,
+            357, 489, 312, 373, 423, 13, 294, 6, 438, 295, 311, 327, 214, 404, 192, 196, 33, 437, 303,
+            248, 509, 229, 421, 130, 450, 512, 7, 426, 261, 369, 386>>
+Table4 == <<2332, 3271, 33, 2103, 3361, 577, 2054, 3457, 2921, 2902, 2343, 2607, 2409, 2817, 2570,
+            2917, 2739, 645, 294, 3365, 1609, 1039, 3437, 1673, 2981, 2204, 1154, 2944, 2638, 2345,
+            1842, 2407, 1353, 3662, 2277, 2861, 3078, 1025, 2434, 2358, 3054, 2850, 2977, 3048, 1129>>
 
 RECURSIVE SetToSeq(_)
 SetToSeq(S) == IF S = {} THEN <<>> ELSE LET x == CHOOSE y \in S : TRUE IN <<x>> \o SetToSeq(S \ {x})
@@ -401,7 +412,10 @@ Laws ==
 
 NegLaws ==
   done /\ fam = "neg" =>
-    \A j \in 1..Len(NegSeq) : ParseExpr(NegSeq[j]).k = "error" /\ ParseExprDev(NegSeq[j]).k = "error"
+    \A j \in 1..Len(NegCases) :
+       \* refused, and by the rule of the grammar that is meant to refuse it
+       /\ ParseExpr(NegCases[j].t).k = "error" /\ ParseExpr(NegCases[j].t).v = NegCases[j].why
+       /\ ParseExprDev(NegCases[j].t).k = "error"
 
 \* ----------------------------------------------------------------- vectors
 Texts(toks) == [j \in 1..Len(toks) |-> toks[j].text]
